@@ -2,6 +2,7 @@ package c15
 
 import (
 	"fmt"
+	"math"
 	"strings"
 	"sync"
 	"testing"
@@ -75,7 +76,13 @@ type outcome struct {
 
 const nKeys = 10
 
-func key(i int) string { return fmt.Sprintf("k%d", i%nKeys) }
+// key 0 is the empty string (a legal key that code keyed on "no value" easily mistreats)
+func key(i int) string {
+	if i%nKeys == 0 {
+		return ""
+	}
+	return fmt.Sprintf("k%d", i%nKeys)
+}
 
 func runTTL(t *testing.T, c ttlCase) (out outcome, err error) {
 	var errs vk.Errs
@@ -93,6 +100,9 @@ func runTTL(t *testing.T, c ttlCase) (out outcome, err error) {
 			if c.MaxTTL > 0 && ttl > c.MaxTTL {
 				out.capped = true
 				ttl = c.MaxTTL
+			}
+			if ttl > int64(math.MaxInt64/time.Second) {
+				return math.MaxInt64 // more seconds than a Duration can hold: does not expire within any test
 			}
 			return time.Duration(ttl) * time.Second
 		}
@@ -131,6 +141,9 @@ func runTTL(t *testing.T, c ttlCase) (out outcome, err error) {
 			found := false
 			now := time.Now()
 			for _, e := range model {
+				if e.exp.Sub(now) > time.Hour {
+					continue // a far-future expiry (huge TTL) is not a target for clock advances: the cleaner would tick all the way
+				}
 				if e.exp.After(now) && (!found || e.exp.Before(best)) {
 					best, found = e.exp, true
 				}
@@ -346,11 +359,18 @@ func runGroup(errs *vk.Errs, cache *ttlcache.Cache[int], model map[string]entry,
 	return true
 }
 
+func genTTL(rt *rapid.T) int64 {
+	if rapid.IntRange(0, 19).Draw(rt, "hugeTTL") == 0 {
+		return rapid.SampledFrom([]int64{9223372036, 9223372037, 18446744074, math.MaxInt64 - 1, math.MaxInt64}).Draw(rt, "ttlHuge")
+	}
+	return int64(rapid.IntRange(1, 8).Draw(rt, "ttl"))
+}
+
 func genSimple(rt *rapid.T, inGroup bool) op {
 	k := rapid.IntRange(0, 11).Draw(rt, "kind")
 	switch {
 	case k <= 3:
-		return op{Kind: "set", Key: rapid.IntRange(0, nKeys-1).Draw(rt, "key"), TTL: int64(rapid.IntRange(1, 8).Draw(rt, "ttl"))}
+		return op{Kind: "set", Key: rapid.IntRange(0, nKeys-1).Draw(rt, "key"), TTL: genTTL(rt)}
 	case k <= 5:
 		return op{Kind: "get", Key: rapid.IntRange(0, nKeys-1).Draw(rt, "key")}
 	case k == 6:
@@ -363,7 +383,7 @@ func genSimple(rt *rapid.T, inGroup bool) op {
 		return op{Kind: "cleanup"}
 	default:
 		if inGroup {
-			return op{Kind: "set", Key: rapid.IntRange(0, nKeys-1).Draw(rt, "key"), TTL: int64(rapid.IntRange(1, 8).Draw(rt, "ttl"))}
+			return op{Kind: "set", Key: rapid.IntRange(0, nKeys-1).Draw(rt, "key"), TTL: genTTL(rt)}
 		}
 		adv := rapid.SampledFrom([]string{"before", "at", "after", "dur", "dur"}).Draw(rt, "adv")
 		d := time.Duration(rapid.SampledFrom([]int{1, 500, 999, 1000, 1001, 2000, 3500, 7000, 20000}).Draw(rt, "ms")) * time.Millisecond
@@ -414,7 +434,7 @@ func record(sec *vk.Section, c ttlCase, out outcome) {
 // (a sweep over ALL keys, so an untouched live key that disappears is seen at once).
 func TestTTLHistories(t *testing.T) {
 	sec := vk.Sec("TTLHistories")
-	vk.Check(t, 30000, 600000, func(rt *rapid.T) {
+	vk.Check(t, 30000, 8000000, func(rt *rapid.T) {
 		c := genCase(rt, false)
 		out, err := runTTL(t, c)
 		if err != nil {
@@ -428,7 +448,7 @@ func TestTTLHistories(t *testing.T) {
 // goroutines at one virtual instant while the periodic cleaner runs.
 func TestTTLConcurrent(t *testing.T) {
 	sec := vk.Sec("TTLConcurrent")
-	vk.Check(t, 15000, 400000, func(rt *rapid.T) {
+	vk.Check(t, 15000, 4000000, func(rt *rapid.T) {
 		c := genCase(rt, true)
 		out, err := runTTL(t, c)
 		if err != nil {
@@ -496,7 +516,9 @@ func TestTTLPinnedConcurrentInsert(t *testing.T) {
 		c.Stop()
 		sec.Case(true, vk.FP("pinned-concurrent-insert", it%2), "pinned.concurrent-insert")
 	}
-	sec.Sample(func() any { return "4 goroutines x Set(k{3g..3g+2}, ttl=100) on NewCache(InitialSize:1), then Get all 12" })
+	sec.Sample(func() any {
+		return "4 goroutines x Set(k{3g..3g+2}, ttl=100) on NewCache(InitialSize:1), then Get all 12"
+	})
 }
 
 // TestTTLPinnedInsertVersusDelete is the regression for the second half of the writer-serialization repair: real
@@ -526,5 +548,7 @@ func TestTTLPinnedInsertVersusDelete(t *testing.T) {
 		c.Stop()
 		sec.Case(true, vk.FP("pinned-insert-vs-delete", it%2), "pinned.insert-vs-delete")
 	}
-	sec.Sample(func() any { return "{del(k3);set(k9);del(k2);set(k0)} || {del(k0);set(k4)} || {cleanup;set(k0)x3} || {set(k0);set(k1)} on NewCache(InitialSize:1) after set(k1);reset; then Get k9,k4,k1" })
+	sec.Sample(func() any {
+		return "{del(k3);set(k9);del(k2);set(k0)} || {del(k0);set(k4)} || {cleanup;set(k0)x3} || {set(k0);set(k1)} on NewCache(InitialSize:1) after set(k1);reset; then Get k9,k4,k1"
+	})
 }
